@@ -556,6 +556,29 @@ pub fn run_case(case: &Value, keys: &Keys) -> Value {
             let text = t.print_block_source(0).unwrap();
             let reload = Biscuit::from(t.to_vec().unwrap(), keys.root.public()).unwrap();
             let reloaded_text = reload.print_block_source(0).unwrap();
+            // the same block appended to a token that already has symbols of its own, as a first-party and as a
+            // third-party block (which carries its own symbol and key tables), printed through the verified and
+            // the unverified token: every path must give the text above
+            let mut paths = serde_json::Map::new();
+            let base = BiscuitBuilder::new()
+                .fact(Fact::new("user".to_string(), vec![Term::Str("alice".to_string())])).unwrap()
+                .fact(Fact::new("resource".to_string(), vec![Term::Str("/folder/file1".to_string())])).unwrap()
+                .build(&keys.root).unwrap();
+            if let Ok(t1) = base.append(block_builder(&item)) {
+                paths.insert("appended block, verified token".into(), json!(t1.print_block_source(1).unwrap_or_default()));
+                if let Ok(u) = biscuit_auth::UnverifiedBiscuit::from(t1.to_vec().unwrap()) {
+                    paths.insert("appended block, unverified token".into(), json!(u.print_block_source(1).unwrap_or_default()));
+                }
+            }
+            if let Ok(tp) = base.third_party_request().and_then(|r| r.create_block(&keys.ext[0].private(), block_builder(&item))) {
+                if let Ok(t3) = base.append_third_party(keys.ext[0].public(), tp) {
+                    paths.insert("third-party block, verified token".into(), json!(t3.print_block_source(1).unwrap_or_default()));
+                    if let Ok(u) = biscuit_auth::UnverifiedBiscuit::from(t3.to_vec().unwrap()) {
+                        paths.insert("third-party block, unverified token".into(), json!(u.print_block_source(1).unwrap_or_default()));
+                    }
+                }
+            }
+            let paths = Value::Object(paths);
             match BlockBuilder::new().code(&text) {
                 Ok(bb2) => {
                     let t2 = token_of(bb2, keys);
@@ -563,9 +586,9 @@ pub fn run_case(case: &Value, keys: &Keys) -> Value {
                     // structural identity: same serialized block contents (symbols, facts, rules, checks, scopes)
                     let w1 = crate::s_chain::decode(&t.to_vec().unwrap()).unwrap().authority.block;
                     let w2 = crate::s_chain::decode(&t2.to_vec().unwrap()).unwrap().authority.block;
-                    json!({"text": text, "same": w1 == w2, "reprinted": text2, "reloaded_same": reloaded_text == text, "builder_text": builder_text})
+                    json!({"text": text, "same": w1 == w2, "reprinted": text2, "reloaded_same": reloaded_text == text, "builder_text": builder_text, "paths": paths})
                 }
-                Err(e) => json!({"text": text, "parse_error": short(e), "reloaded_same": reloaded_text == text, "builder_text": builder_text}),
+                Err(e) => json!({"text": text, "parse_error": short(e), "reloaded_same": reloaded_text == text, "builder_text": builder_text, "paths": paths}),
             }
         }
         _ => {
